@@ -12,6 +12,7 @@ with a minimal switch interval completes the picture.
 """
 from __future__ import annotations
 
+from harness.core import stable
 import json
 import random
 import re
@@ -106,7 +107,7 @@ def coop_lock(sched):
 
 
 def result_of(schema, xml):
-    errs = [(e.path, str(e.reason)[:120]) for e in schema.iter_errors(xml)]
+    errs = [(e.path, stable(e.reason)[:120]) for e in schema.iter_errors(xml)]
     try:
         data = repr(schema.decode(xml, validation="lax")[0])
     except Exception as e:      # noqa: BLE001
